@@ -92,6 +92,23 @@ func genC03(t *rapid.T) any {
 		}
 		sch.groupCols = append(sch.groupCols, c)
 	}
+	if ng >= 2 && rapid.IntRange(0, 2).Draw(t, "sharedpool") == 0 {
+		// two grouping columns over the same values: key tuples that are permutations of each other, (1,2) and (2,1),
+		// are different groups
+		a := &sch.groupCols[0]
+		for len(a.Pool) < 2 {
+			switch a.Kind {
+			case "str":
+				a.Pool = append(a.Pool, rapid.SampledFrom([]string{"b", "1", "x y", ""}).Draw(t, "sharedpool.s"))
+			case "int":
+				a.Pool = append(a.Pool, rapid.SampledFrom([]float64{2, -1, 10}).Draw(t, "sharedpool.i"))
+			default:
+				a.Pool = append(a.Pool, rapid.SampledFrom([]float64{1.5, -2.25}).Draw(t, "sharedpool.n"))
+			}
+		}
+		sch.groupCols[1].Kind = a.Kind
+		sch.groupCols[1].Pool = append([]any{}, a.Pool...)
+	}
 	for i := 0; i < nv; i++ {
 		c := Col{Name: names[3+i], Kind: "num", Nullable: i > 0 && rapid.Bool().Draw(t, fmt.Sprintf("v%d.nullable", i))}
 		n := rapid.IntRange(2, 4).Draw(t, fmt.Sprintf("v%d.card", i))
